@@ -571,7 +571,7 @@ def check_registry(ctx, prefix=None):
     """the model's registry and the implementation's must register the same instruction names"""
     impl, model = registry_names()
     if prefix:
-        impl = set(n for n in impl if n.startswith(prefix)); model = set(n for n in model if n.startswith(prefix))
+        impl = set(n for n in impl if n.startswith(prefix)); model = set(n for n in model if n.startswith(prefix))       # str or tuple of str
     ctx.evaluations += 1
     ctx.stats["registry-names"] = {"cases": 1, "implementation": len(impl), "model": len(model),
                                    "note": "set of registered instruction names, implementation vs model"}
@@ -660,6 +660,48 @@ def long_time_limit(ctx, prop="C15"):
 
 
 
+def new_names(ctx, prop):
+    """the oracle assumption on draw_name (Model/RandomGen.v): names::Generator yields lower-case words joined by '-',
+    which the parser always reads back as the identifier itself.  Checked on N draws; when the alphabet changed (the
+    correspondence to the oracle description is broken) a long search looks for a drawn name that is NOT read back as a name."""
+    n = {"quick": 400000, "thorough": 4000000, "search": 1000000}[ctx.tier]
+    line = "rand.newnames (1 () %d)" % n
+    r = run_impl([line], timeout=600)[0]
+    ctx.evaluations += 1
+    stat = ctx.stats.setdefault("new-name-alphabet", {"cases": 0, "draws": 0, "outside_alphabet": 0, "not_read_back_as_name": 0,
+                                "note": "CodeGenerator::new_random_name(): every drawn name is lower-case words joined by '-' (the oracle assumption of draw_name) and is read back by the parser as the identifier itself"})
+    stat["cases"] += 1; stat["draws"] += n
+    try:
+        v = sx_parse(r)[1]
+        outside, first_out, notname, first_bad = v[0], "".join(chr(c) for c in v[1]), v[2], "".join(chr(c) for c in v[3])
+    except Exception:
+        ctx.violation("drawing new names failed", {"property": prop, "kind": "runtime", "suite": "rand.newnames", "case": line.split(" ", 1)[1], "impl_output": r[:200]})
+        return
+    stat["outside_alphabet"] += outside; stat["not_read_back_as_name"] += notname
+    if outside and not notname:
+        # search: up to 3e7 further draws for a name that lexes as something else
+        for _ in range(6):
+            r2 = run_impl(["rand.newnames (1 () 5000000)"], timeout=900)[0]
+            stat["draws"] += 5000000
+            try:
+                v2 = sx_parse(r2)[1]
+            except Exception:
+                break
+            if v2[2]:
+                notname, first_bad = v2[2], "".join(chr(c) for c in v2[3])
+                break
+    if notname:
+        ctx.violation("a freshly drawn name is not a name for the parser: `%s` (the generated program does not print/parse back, C11)" % first_bad,
+                      {"property": prop, "kind": "predicate-fails", "suite": "rand.newnames", "case": "(1 () %d)" % n, "drawn_name": first_bad, "example_outside_alphabet": first_out,
+                       "how_to_replay": "parse the drawn name with PushParser::parse_program: it is not an Identifier; new names now leave the alphabet [a-z]+(-[a-z]+)+"})
+    elif outside:
+        ctx.violation("new names left the alphabet the oracle model assumes (e.g. `%s`); no drawn name that fails to parse back was found" % first_out,
+                      {"property": prop, "kind": "correspondence-broken", "suite": "rand.newnames", "case": "(1 () %d)" % n, "example_outside_alphabet": first_out,
+                       "no_longer_checks": "oracle assumption of draw_name (Model/RandomGen.v): names::Generator output is lower-case words joined by '-'"}, nofail=True)
+
+
+
+
 def do_replay(mod, path):
     obj = json.load(open(path))
     build_model(); build_harness()
@@ -709,4 +751,6 @@ def main(mod, argv):
         evaluate_stream(ctx, st)
     if hasattr(mod, "extra"):
         mod.extra(ctx)
+    if "registry-names" not in ctx.stats:
+        check_registry(ctx, getattr(mod, "REGISTRY_PREFIX", None))
     finish(ctx, proof)
